@@ -4,24 +4,8 @@ open Yaclib.FiberSync
 
 set_option maxHeartbeats 4000000 in
 theorem inv_step_3 {k s l s'} (hi : Inv k s) (hs : Step s l s') (hg : grpOf l = 3) : Inv k s' := by
-  cases hi
   cases hs with
-  | txFast f hk hfx h ho => sm_auto
-  | txFastF f hk hfx h ho => sm_auto
-  | txPark f t d j hk h ho ht => sm_auto
-  | txWokenAcq f hk h => sm_auto
-  | txRecheckAcq f req hk h ho => sm_auto
-  | txRepark f req j hk h ho => sm_auto
-  | txTimeout f t req dl hk h hd ht => sm_auto
-  | tsFast f hk h hx => sm_auto
-  | tsPark f t d j hk h hx ht => sm_auto
-  | tsWokenAcq f hk h => sm_auto
-  | tsRecheckAcq f req hk h hx => sm_auto
-  | tsRepark f req j hk h hx => sm_auto
-  | tsTimeout f t req dl hk h hd ht => sm_auto
-  | sleepStart f t d h ht => sm_auto
-  | sleepWake f t dl h hd ht => sm_auto
-  | finish f h => sm_auto
+  | unlockS f w h hh hw => cases hi; cases w <;> sm_auto
   | _ => simp [grpOf] at hg
 
 end Yaclib.FiberSync.Sm
